@@ -256,6 +256,7 @@ func checkInner(c Case) (string, string) {
 	seen := map[string]int{}
 	total := 0
 	fresh := true
+	exhausted := false
 	strict := true // until a mid-way n<=0 call, after which the statement pins only "no panic, nil error"
 	for i, n := range c.Pages {
 		page, err := hackpadfs.ReadDirFile(f, n)
@@ -267,6 +268,9 @@ func checkInner(c Case) (string, string) {
 			if err != nil {
 				return base + " page:nonpositive-error", fmt.Sprintf("%s = (%d entries, %v), want nil error", what, len(page), err)
 			}
+			if exhausted && strict && len(page) != 0 {
+				return base + " page:after-all-delivered", fmt.Sprintf("%s: all entries had been delivered already; got %d entries again", what, len(page))
+			}
 			if fresh {
 				var names []string
 				for _, de := range page {
@@ -277,8 +281,24 @@ func checkInner(c Case) (string, string) {
 					return base + " page:nonpositive-fresh", fmt.Sprintf("%s on a fresh handle returned %v, want all of %v", what, names, wantNames)
 				}
 			}
-			strict = false
+			if fresh {
+				// everything was delivered: from here on nothing remains
+				total = len(want)
+				for _, de := range page {
+					seen[de.Name()]++
+				}
+				exhausted = true
+			} else {
+				strict = false
+			}
 			fresh = false
+			continue
+		}
+		if exhausted && strict {
+			// after a non-positive count on a fresh handle returned all entries, no entries remain: io.EOF and nothing else
+			if len(page) != 0 || err != io.EOF {
+				return base + " page:after-all-delivered", fmt.Sprintf("%s: a non-positive count on the fresh handle had returned all %d entries; got (%d entries, %v), want (none, io.EOF)", what, len(want), len(page), err)
+			}
 			continue
 		}
 		fresh = false
